@@ -91,6 +91,8 @@ pub struct SenderCache {
     pub slots: HashMap<(u8, u8), String>,
     /// use all 8 segments (otherwise 6 and 7 stay reserved for isolated / junk headers)
     pub all_segments: bool,
+    /// every atom goes through the header and the cache (none stays inline in the terms)
+    pub cache_everything: bool,
 }
 
 impl SenderCache {
@@ -103,7 +105,7 @@ impl SenderCache {
     /// Chooses, for the atoms of one message, which go through the header, at which position,
     /// in which slot, and whether as a new entry or a reference to an existing one. Updates the model.
     pub fn choose_refs(&mut self, r: &mut Rng, atoms: &[String], stats: &mut Vec<&'static str>) -> Vec<HdrRef> {
-        let mut order: Vec<&String> = atoms.iter().filter(|a| a.len() <= 255 || r.chance(1, 2)).collect();
+        let mut order: Vec<&String> = atoms.iter().filter(|a| self.cache_everything || a.len() <= 255 || r.chance(1, 2)).collect();
         // positions are independent of slots: shuffle
         for i in (1..order.len()).rev() {
             let j = r.below(i as u64 + 1) as usize;
@@ -113,7 +115,7 @@ impl SenderCache {
         let mut refs: Vec<HdrRef> = Vec::new();
         let mut used_slots: Vec<(u8, u8)> = Vec::new();
         for a in order {
-            if r.chance(1, 6) {
+            if !self.cache_everything && r.chance(1, 6) {
                 continue; // stays inline in the terms
             }
             let cached = self.find(a).filter(|s| !used_slots.contains(s));
